@@ -179,10 +179,14 @@ func (p *ContractWatcherSellerV2) run() error {
 CONTRACT_CYCLE:
 	for {
 		p.log.Debugf("new contract cycle started")
+		// when the end of the contract falls on the end of a cycle this is where it is noticed:
+		// the miners allocated so far have to be released here as well
 		if !p.isRunningBlockchain() {
+			p.removeAllMiners()
 			return ErrNotRunningBlockchain
 		}
 		if p.isTimeExpired() {
+			p.removeAllMiners()
 			return nil
 		}
 
